@@ -482,4 +482,37 @@ theorem detectCircular_spec (rt : RefTypes) : ∀ (cs : List CClass) (edges fina
           rw [he] at he0; cases he0
           exact ⟨c', List.mem_cons_of_mem _ hc'm, hin, e, he, t0 ▸ CReach.anti m1 hr⟩
 
+/-! ### the remaining plain references form an acyclic graph -/
+
+/-- `x` still has a plain (unflagged, non-forward, non-native) attr or choice type pointing to `y` -/
+def PlainEdge (final : List TEdge) (cs : List CClass) (x y : Nat) : Prop :=
+  ∃ c ∈ cs, c.ref = x ∧ ∃ i ∈ c.own, ∃ e : TEdge, final[i]? = some e ∧ e.forward = false ∧
+    e.native = false ∧ e.circular = false ∧ e.tgt = y
+
+inductive PlainReach (final : List TEdge) (cs : List CClass) : Nat → Nat → Prop
+  | refl (x : Nat) : PlainReach final cs x x
+  | step {x y z : Nat} : PlainReach final cs x y → PlainEdge final cs y z → PlainReach final cs x z
+
+/-- the cache lists every own type of every processed class under that class (what
+`build_reference_types` does for types with a reference) -/
+def OwnCached (rt : RefTypes) (cs : List CClass) : Prop :=
+  ∀ c ∈ cs, ∃ ids, List.lookup c.ref rt = some ids ∧ ∀ i ∈ c.own, i ∈ ids
+
+theorem PlainReach.toC {final : List TEdge} {rt : RefTypes} {cs : List CClass} (hown : OwnCached rt cs)
+    {x y : Nat} (h : PlainReach final cs x y) : CReach final rt x y := by
+  induction h with
+  | refl => exact CReach.refl _
+  | step _ he ih =>
+    obtain ⟨c, hc, rfl, i, hi, e, hfe, _, _, hcirc, rfl⟩ := he
+    obtain ⟨ids, hl, hsub⟩ := hown c hc
+    exact CReach.step ih ⟨ids, i, e, hl, hsub i hi, hfe, hcirc, rfl⟩
+
+theorem plain_acyclic (rt : RefTypes) (cs : List CClass) (edges final : List TEdge)
+    (h : detectCircular rt edges cs = some final) (hown : OwnCached rt cs) (x y : Nat)
+    (hxy : PlainEdge final cs x y) : ¬ PlainReach final cs y x := by
+  intro hr
+  obtain ⟨c, hc, rfl, i, hi, e, hfe, hf, hn, hcirc, rfl⟩ := hxy
+  obtain ⟨_, d, _⟩ := detectCircular_spec rt cs edges final h
+  exact d c hc i hi e hfe hf hn hcirc (PlainReach.toC hown hr)
+
 end Xs.Codegen
